@@ -115,13 +115,14 @@ def shard_run(arg):
                     sh.count("large_envs")
                 d = {}
                 for _ in range(n):
-                    scope = r.choice(SCOPES + ["process:worker"])
+                    # (in memory a process scope is just a string: also the empty one, one with odd characters, one that spells another scope)
+                    scope = r.choice(SCOPES + ["process:worker", "process:", "process:launch", "process:a b/c"])
                     d[(scope, r.choice(envmodel.BEHAVIOURS), r.choice(names))] = r.choice(vals)
                 entries = [(s, b, nm, v) for (s, b, nm), v in d.items()]
                 perm = entries[:]
                 r.shuffle(perm)
                 starts = [{}, {r.choice(names): r.choice(vals)}, {nm: r.choice(vals) for nm in names[:40]}]
-                queries = [(s, st) for s in QSCOPES + ["process:worker"] for st in starts]
+                queries = [(s, st) for s in QSCOPES + ["process:worker", "process:", "process:launch", "process:a b/c"] for st in starts]
                 check_case(mon, entries, perm, sh, queries)
                 # duplicate keys: last insert wins, on a copy with one key re-inserted
                 k = r.choice(list(d))
